@@ -498,6 +498,13 @@ static void push_args2(Node *args, bool first_pass) {
   default:
     push();
   }
+
+  // Arguments are pushed last to first, so the padding that precedes
+  // this argument in memory is allocated after it.
+  if (args->stack_pad) {
+    println("  sub $8, %%rsp");
+    depth++;
+  }
 }
 
 // Load function call arguments. Arguments are already evaluated and
@@ -568,6 +575,20 @@ static int push_args(Node *node) {
         stack++;
       }
     }
+  }
+
+  // An argument in memory whose alignment is 16 (long double, or an
+  // aggregate that contains one) starts at a 16-byte boundary.
+  int slot = 0;
+  for (Node *arg = node->args; arg; arg = arg->next) {
+    if (!arg->pass_by_stack)
+      continue;
+    arg->stack_pad = arg->ty->align > 8 && slot % 2 == 1;
+    if (arg->stack_pad) {
+      slot++;
+      stack++;
+    }
+    slot += align_to(arg->ty->size, 8) / 8;
   }
 
   if ((depth + stack) % 2 == 1) {
@@ -1415,7 +1436,7 @@ static void assign_lvar_offsets(Obj *prog) {
           continue;
       }
 
-      top = align_to(top, 8);
+      top = align_to(top, MAX(8, ty->align));
       var->offset = top;
       top += var->ty->size;
     }
